@@ -653,3 +653,18 @@ def cases(rng, tier):
             yield ("ip_init", [t, ver, fl], "init_shorthand")
         yield ("ip_init", [t, rng.choice((None, 4)), ZEROFILL], "init_zerofill")
         yield ("valid_str", [4, t, rng.choice((0, 1, 2, 3))], "valid_str")
+
+
+# ---- object-lifecycle checks (harness/lifecycle.py): objects with a history behave like fresh ones, results do not
+# alias operands, failed mutators change nothing.  The functional model has no hidden state: its answer is "no discrepancy".
+from harness import lifecycle as _life
+IMPL.update(_life.IMPL)
+ORACLE.update(_life.ORACLE)
+EXACT = tuple(EXACT) + ("life",)
+RULE = RULE + " | lifecycle: observe-mutate-observe vs a fresh object, aliasing of results, failure atomicity (addr)"
+_cases_without_life = cases
+
+
+def cases(rng, tier):
+    yield from _cases_without_life(rng, tier)
+    yield from _life.cases(rng, tier, {'addr'})
